@@ -32,6 +32,9 @@ CRATES = {
     "harness-vec": "kv-vec",
     "harness-auth": "kv-auth",
     "harness-http": "kv-http",
+    "harness-fuzz": "kv-fuzz",
+    "harness-conc": "kv-conc",
+    "harness-fault": "kv-fault",
 }
 HARNESS_BIN = os.path.join(TARGET, "debug", "krillverif")
 
@@ -40,7 +43,10 @@ def harness_bin(crate="harness"):
     return os.path.join(TARGET, "debug", CRATES[crate])
 
 OUT = os.path.join(VERIF, "out")
-EVIDENCE = os.path.join(VERIF, "evidence")
+# (runs against a deliberately changed tree -- lib/with_mutation.py -- write
+# their evidence elsewhere so that the committed files describe the real tree)
+EVIDENCE = os.environ.get("VERIF_EVIDENCE_DIR") or os.path.join(VERIF, "evidence")
+os.makedirs(EVIDENCE, exist_ok=True)
 REPO = "/repo"
 NCPU = os.cpu_count() or 4
 
